@@ -39,7 +39,7 @@ ASSUMPTIONS = ['leg-level operations (sort, bunch, project, extend, LegPipe cons
                'int64 arithmetic does not overflow for the generated sizes']
 
 ADD_OPS = {'iadd', 'add', 'sub', 'iadd_op', 'isub_op'}
-FACT_OPS = {'svd', 'qr', 'lq', 'eigh', 'eig', 'expm', 'pinv'}
+FACT_OPS = {'svd', 'qr', 'lq', 'eigh', 'eig', 'expm', 'pinv', 'fact2', 'detect_leg', 'from_ndarray_opts', 'add_charge_gen', 'grid_outer'}
 CORPUS = []
 
 
@@ -240,6 +240,11 @@ def run(ctx):
         res.merge(evaluate(ctx, batch))
         done += len(batch)
     res.extra['histories'] = done
+    res.extra['anchor_coverage_note'] = (
+        'coverage round 2026-09-26 (worker under coverage.py, TENPY_NO_CYTHON=1, the 1321 quick-tier histories of seed 0): '
+        'line+branch coverage of tenpy/linalg/np_conserved.py 70% -> 90%, charges.py 61% -> 76%, together 68% -> 86%; '
+        'unexercised remainder: hdf5 import/export and legacy __setstate__ (C17), LegPipe.map_incoming_flat (C06), dead '
+        'code Array._bunch/_perm_qind, raise-branches of test_sanity, DipolarChargeInfo argument errors')
     res.extra['histories_planned'] = len(cases)
     return res
 
